@@ -28,29 +28,34 @@ def run(ctx):
     R = "C11.dom.check-before-alloc"
 
     def before_alloc():
+        CHK = "ruzstd::decoding::frame_decoder::FrameDecoderState::check_window_size"
         for fn, alloc in ((FDS + "::new", "DecoderScratch::new"), (FDS + "::reset", "DecoderScratch::reset")):
             body = ctx.hir(fn)
-            ix = hq.Index(body)
+            # provenance form: locals are replaced by where their value comes from, same-file helpers are looked
+            # into one level, so the rule reads the same whether the header handling is inline or extracted
+            ix = hq.Index(body, provenance=True)
             site = dom.one_call(body, alloc)
             tries = dom.conds(ix, site, ("try",))
-            want = "ok ruzstd::decoding::frame_decoder::FrameDecoderState::check_window_size(@FrameHeader::window_size, $1)"
-            ctx.check(want in tries, R, H.short(fn) + "::check-dominates-" + alloc.split("::")[-1], H.loc(body, site),
-                      "check_window_size(frame.window_size()?, max_window_size)? must dominate the window-sized allocation",
-                      observed=tries, expected=want)
-            # the size allocated is the size that was checked
             arg = ix.canon(site["args"][-1])
-            ctx.check(arg == "(@FrameHeader::window_size as usize)", R, H.short(fn) + "::allocates-checked-size", H.loc(body, site),
-                      "the allocation must use the window size that was checked", observed=arg)
-            # the checked size comes from this frame's header
-            ws = [x for x in hq.find(body["body"], lambda x: x.get("k") == "MethodCall" and x["name"] == "window_size")]
-            ok = len(ws) == 1 and ix.canon(ws[0]["recv"]).startswith("@frame::read_frame_header") and ix.canon(ws[0]["recv"]).endswith(".0")
-            ctx.check(ok, R, H.short(fn) + "::size-from-this-header", body["file"],
-                      "the checked size must come from the header that was just read", observed=[ix.canon(x["recv"]) for x in ws])
-        # reuse path: every state write is dominated by the check (MIR)
+            size = arg[1:-len(" as usize)")] if arg.startswith("(") and arg.endswith(" as usize)") else arg
+            want = "ok %s(%s, $1)" % (CHK, size)
+            ctx.check(want in tries, R, H.short(fn) + "::check-dominates-" + alloc.split("::")[-1], H.loc(body, site),
+                      "check_window_size(<the size allocated>, max_window_size)? must dominate the window-sized allocation",
+                      observed=[t for t in tries if "check_window_size" in t] or tries, expected=want)
+            # the size allocated is this frame's header's window size
+            hdr = "ruzstd::decoding::frame::read_frame_header($0)?.0"
+            ok = size == "ruzstd::decoding::frame::FrameHeader::window_size(%s)?" % hdr
+            ctx.check(ok, R, H.short(fn) + "::allocates-checked-size", H.loc(body, site),
+                      "the allocation must use the window size of the header that was just read from the source", observed=arg)
+            # exactly one header is read per frame initialisation
+            n = sum(1 for t in tries if t == "ok ruzstd::decoding::frame::read_frame_header($0)")
+            ctx.check(n == 1, R, H.short(fn) + "::size-from-this-header", body["file"],
+                      "the checked size must come from the one header read for this frame", observed=n)
+        # reuse path: every state write is dominated by the check (MIR; the check may sit in a same-file helper)
         b = ctx.mir(FDS + "::reset")
-        chk = [bi for bi, t, tgt in b.calls() if H.strip_generics(tgt or "") == FDS + "::check_window_size"]
+        chk = flow.establishing_calls(crate, b, FDS + "::check_window_size")
         if len(chk) != 1:
-            raise Anchor("check_window_size call not found in MIR of reset")
+            raise Anchor("no single call in reset() after whose success check_window_size has succeeded (found %d)" % len(chk))
         errs = flow.error_blocks(b)
         effs, _ = flow.field_effects(b, 1)
         bad = []
@@ -59,7 +64,7 @@ def run(ctx):
                 bad.append(str(e))
                 continue
             # and not reachable from the check's failure edge
-        ctx.check(not bad and len(effs) >= 7, R, "FrameDecoderState::reset::all-writes-after-check", b.file,
+        ctx.check(not bad and len(effs) >= 3, R, "FrameDecoderState::reset::all-writes-after-check", b.file,
                   "no per-frame state may be written before the limit check passed", observed=bad or len(effs))
         # WHO
         for callee, allowed in (("DecoderScratch::new", {FDS + "::new"}), ("DecoderScratch::reset", {FDS + "::reset"}),
